@@ -9,7 +9,9 @@ POOL = [("a3", "[1, 2, 3]", "Arr"), ("a5", "[1, 2, 3, 4, 5]", "Arr"), ("a6", "[6
         ("m1", "%{1: 'a, \"k\": 'b, [1]: 'c}", "Map"), ("r1", "(1:10:2)", "Range"), ("f1", "{|x| x + 1}", "Func"), ("e1", "1.try.nosuchprop.err", "Err"),
         ("v1", "1.try", "EitherVal"), ("n1", "5", "Int"), ("q1", "1.5", "Float"),
         # a str that is the start of a str range, an int descendant that is a bound of an int range
-        ("s3", '"ab"', "Str"), ("r2", '(s3:"af")', "Range"), ("b1", "2.bear({q: 1})", "Int"), ("r3", "(b1:4)", "Range"), ("r4", "(true:3)", "Range")]
+        ("s3", '"ab"', "Str"), ("r2", '(s3:"af")', "Range"), ("b1", "2.bear({q: 1})", "Int"), ("r3", "(b1:4)", "Range"), ("r4", "(true:3)", "Range"),
+        # two equal maps with several non-scalar keys (comparisons walk them pairwise), and containers holding them
+        ("m2", "%{[1]: 'a, [2]: 'b, [3]: 'c, [4, 4]: 'd}", "Map"), ("m3", "%{[1]: 'a, [2]: 'b, [3]: 'c, [4, 4]: 'd}", "Map"), ("m4", "%{[3]: 'c, [1]: 'a, 7: 'e, [2]: 'b}", "Map")]
 # what the interpreter's own accessors say about a live value (the worker's fingerprint reads the Go fields; a cache beside them would go unseen)
 VIEWS = {"Str": "[{n}.len, {n}.rev, {n}[0], {n}[-1], {n}[1:], {n}@{{|c| c}}, {n}.uc, {n} + \"\"]", "Range": "[{n}.A, {n}.start, {n}.stop, {n}.step, {n}.S, {n}@{{|e| e}}]",
          "Arr": "[{n}.len, {n}.rev, {n}[0], {n}[-1], {n}@{{|e| e}}, {n}.S]", "Obj": "[{n}.keys, {n}.values, {n}.S, {n}.items]", "Map": "[{n}.keys, {n}.values, {n}.S, {n}.len]",
@@ -31,7 +33,9 @@ TEMPLATES = ["{a} + {b}", "{a} + [4]", "{a} + \"4]\"", "[*{a}, 4]", "[*{a}, *{b}
              "{a}$(nil)^keep", "{a}@^keep", "keep({a}) + keep({b})", "keep({a}).push(keep({b}))", "{{|*xs| keep(xs)}}(*{a}, *{b})@{{|x| keep(x)}}", "{{|**o| keep(o)}}(**{a}, **{b}).bear({{q: keep(\\)}})",
              "{a}.A@{{|x| keep(x)}}.sort", "{a}.A$(keep([])){{|acc, x| keep(acc + [x])}}", "%{{**{a}}}.items@{{|kv| keep(kv)}}.M", "{a}.items@{{|kv| keep(kv)}}.O",
              "{a}.try.fmap{{|x| keep(x)}}.fmap{{|x| keep([x])}}.A", "keep({a}.try).or({b})", "keep(\"#{{keep({a})}}#{{keep({b})}}\")",
-             "{a}(1)", "{a}({b})", "{a}(1, 2, k: 3)", "{a}.call({b}, {b})", "[{b}]@{{|x| {a}(x)}}", "{b}.{{|x| {a}(x)}}"]
+             "{a}(1)", "{a}({b})", "{a}(1, 2, k: 3)", "{a}.call({b}, {b})", "[{b}]@{{|x| {a}(x)}}", "{b}.{{|x| {a}(x)}}",
+             "{a} == {b}", "{a} != {b}", "[{a}] == [{b}]", "{{k: {a}}} == {{k: {b}}}", "%{{1: {a}}} == %{{1: {b}}}", "[{a}, {b}].has?({b})", "{a} === {b}", "{a}.case(%{{{b}: 1}})",
+             "[{a}, {b}].uniq", "[{a}, {b}].index({b})", "[{b}, {a}].tally"]
 
 
 def hh(s):
